@@ -1,7 +1,7 @@
 ----------------------------- MODULE Gen_Copier -----------------------------
 (* Case generator: the bounded model of MC_Copier with the copier the       *)
 (* property demands; every finished run appends one JSON line               *)
-(*   [nodes, calls, srcenc, dstenc, fail, nimg]                             *)
+(*   [nodes, twin, calls, srcenc, dstenc, fail, nimg]                       *)
 (* to IOEnv.OUT: the source file that was revealed, the top-level calls,    *)
 (* whether the run ends in the documented "unsupported /Crypt filter" error *)
 (* and the number of source objects that must have an image (a consequence  *)
@@ -13,6 +13,7 @@ CallsMade == [i \in 1..Len(log) |-> log[i].call]
              \o (IF stack # <<>> THEN <<stack[1].call>> ELSE <<>>)
 CaseRec ==
   [nodes |-> [n \in DOMAIN g |-> g[n]],
+   twin |-> [n \in Nodes |-> Twin[n]],
    calls |-> CallsMade,
    srcenc |-> SrcEnc, dstenc |-> DstEnc,
    fail |-> fail,
